@@ -305,7 +305,9 @@ fn run(plan: &Plan, dir: &str, rep: &mut RunReport) -> Result<Option<(String, St
                         return Ok(Some(("valid-batch-refused".into(), format!("{what}: {} {}", r.status, r.body))));
                     }
                     let want: Vec<Value> = e.results.iter().map(|x| serde_json::to_value(x.as_ref().unwrap()).unwrap()).collect();
-                    if r.body != Value::Array(want.clone()) {
+                    // results that list elements carry a node's first-edge fields and property order, which may
+                    // differ after an earlier refused batch (see `normalise`): compared in normalised form
+                    if normalise(r.body.clone()) != normalise(Value::Array(want.clone())) {
                         return Ok(Some(("batch-results-differ".into(), format!("{what}: server {} vs reference {}", r.body, Value::Array(want)))));
                     }
                     for q in e.queries.iter().filter(|q| is_mutating(q)) {
